@@ -25,11 +25,13 @@ var persistentTypes = map[string][]string{
 	"statedb.partIndex":           {"C01", "C02"},
 	"statedb.partIndexTxn":        {"C01", "C02"}, // embedded in partIndex; field tx is writer scratch (E1)
 	"statedb.lpmIndex":            {"C01", "C02"},
-	"statedb.lpmEntry":            {"C01", "C02", "C13"},
-	"statedb.lpmEntryObject":      {"C01", "C02", "C13"},
+	// the per-prefix object lists are what queries on a non-unique LPM index return (C04),
+	// with the revision each object carries (C09)
+	"statedb.lpmEntry":       {"C01", "C02", "C13", "C04", "C09"},
+	"statedb.lpmEntryObject": {"C01", "C02", "C13", "C04", "C09"},
 	// radix nodes back tables (C01, C02), part.Tree itself (C11) and Map/Set (C17)
 	"part.header":            {"C01", "C02", "C11", "C17"},
-	"part.leaf":              {"C01", "C02", "C11", "C17"},
+	"part.leaf":              {"C01", "C02", "C11", "C17", "C04", "C09"}, // a leaf holds the indexed object and its revision
 	"part.node4":             {"C01", "C02", "C11", "C17"},
 	"part.node16":            {"C01", "C02", "C11", "C17"},
 	"part.node48":            {"C01", "C02", "C11", "C17"},
@@ -1328,7 +1330,7 @@ func (im *immut) targetDesc(w *writeSite) string {
 
 func init() {
 	register(&Rule{
-		ID: "IMMUT", Props: []string{"C01", "C02", "C11", "C13", "C15", "C17", "C19"}, Floor: 60,
+		ID: "IMMUT", Props: []string{"C01", "C02", "C04", "C09", "C11", "C13", "C15", "C17", "C19"}, Floor: 60,
 		Doc: "every write (store, append, copy, clear, in-place helper, callee that writes a parameter) into memory of a persistent type goes through a pointer/slice that is fresh in the function, owned by the transaction (txnID-gated constructor, `locked` entry, owned field), or a parameter whose callers are all checked; never through a pointer loaded from shared memory",
 		Run: ruleImmut,
 	})
